@@ -347,6 +347,63 @@ def m_part(run, scr, nat, table, oracle):
         q("via-third %s->%s->%s vs %s->%s within 64u" % (a["symbol"], b["symbol"], c["symbol"], a["symbol"], c["symbol"]), sem.decls,
           mcheck.pc_assert(r1[0].pc) + mcheck.pc_assert(r2[0].pc) + mcheck.pc_assert(r3[0].pc) +
           ["(> %s (* %s %s))" % (absx("(- %s %s)" % (r2[0].value.expr, r3[0].value.expr)), smt.rat(64 * U), mag)], "unsat", values=["v"])
+    # ---- the value handed to / taken from the converter: Number::value of every number (recorded fraction error included)
+    import c08
+    cc = c08.build(run, scr, ms=ms)
+    run.functions[:] = [f for f in run.functions if "Scale" not in f and "scale" not in f and "RecipeCollector" not in f]
+    run.functions.append("<ConvertValue as TryFrom<&Value>>::try_from (MIR)")
+    VV = c08.sym_value(cc, "tv")
+    f_try_from = cc.dump.find_impl_method("try_from", r"\(_1: &quantity::Value\) -> Result<ConvertValue, ConvertError>")
+    cc.it.models[r"^<std::string::String as Clone>::clone$"] = models.m_identity
+    cc.it.models[r"RangeInclusive::<f64>::new$"] = lambda it_, a, c_: Agg("RangeInclusive", {"0": a[0], "1": a[1]})
+    tv_items = []
+
+    def val_is(x, num):
+        # x is Number::value(num): within 4u of whole + err + num/den (or the plain number)
+        return "(<= %s (* %s %s))" % (absx("(- %s %s)" % (x, num.exact)), smt.rat(4 * U), num.mag)
+    seen_tf = set()
+    for o in cc.it.run(f_try_from, [VV]):
+        if o.kind == "panic":
+            tv_items.append(("ConvertValue::try_from never panics", mcheck.pc_assert(o.pc), "true"))
+            continue
+        if o.kind != "return":
+            continue
+        if "Err" in o.value.variants:
+            seen_tf.add("Err")
+            tv_items.append(("ConvertValue::try_from refuses only text values", mcheck.pc_assert(o.pc), "(not (= %s %d))" % (VV.discr.expr, VV.idx["Text"])))
+            continue
+        cvv = o.value.variants["Ok"].fields["0"]
+        if "Number" in cvv.variants:
+            seen_tf.add("Number")
+            x = cvv.variants["Number"].fields["0"].expr
+            tv_items.append(("ConvertValue::try_from(Number) hands over the exact amount, recorded fraction error included (4u) path[%s]" % ">".join(o.trace[-2:]),
+                             mcheck.pc_assert(o.pc), "(not (and (= %s %d) %s))" % (VV.discr.expr, VV.idx["Number"], val_is(x, VV.n))))
+        elif "Range" in cvv.variants:
+            seen_tf.add("Range")
+            rg = cvv.variants["Range"].fields["0"]
+            tv_items.append(("ConvertValue::try_from(Range) hands over both ends exactly (4u) path[%s]" % ">".join(o.trace[-2:]),
+                             mcheck.pc_assert(o.pc), "(not (and (= %s %d) %s %s))" % (VV.discr.expr, VV.idx["Range"],
+                                                                                       val_is(rg.fields["0"].expr, VV.s), val_is(rg.fields["1"].expr, VV.e))))
+    if seen_tf != {"Err", "Number", "Range"}:
+        run.inconclusive.append("ConvertValue::try_from: expected number, range and text paths, saw %s" % sorted(seen_tf))
+    tb = mcheck.Batch(ms, "c09-tryfrom", list(cc.sem.decls), timeout_s=120, deltas=cc.sem.deltas)
+
+    def tf_replay(model, ob, item):
+        # public API: a fraction with a recorded error converted to another unit must carry the error along
+        for profile in nat.bins:
+            r = nat.call("convert_fraction", "0", "1", "2", "0.01", "cup", "ml", profile=profile)
+            run.traces_validated += 1
+            want = (Fraction(1, 2) + Fraction(1, 100)) * Fraction(236588236, 1000000)
+            if "error" in r or abs(Fraction(r.get("n", 0)) - want) > want / 10 ** 6:
+                run.violation("kernel=ConvertValue::try_from obligation=amount", "1/2 c (+0.01 recorded error) -> ml = %s, expected %.4f" % (r, float(want)),
+                              dict(engine="mir-smt", replay="convert_fraction", profile=profile))
+                ob["status"] = "violated"
+                return
+        run.inconclusive.append("ConvertValue::try_from: candidate does not reproduce through ScaledQuantity::convert")
+    for name, pcs, post in tv_items:
+        tb.add(name, pcs + ([post] if post != "true" else []), "unsat", ["tv_tag", "tv_n_tag", "tv_n_err"], tf_replay)
+    tb.run()
+
     run.bounds.append("M: %d ordered pairs (all) and %d ordered triples (%s) of the %d shipped units" % (
         npairs, len(triples), "all" if run.tier == "thorough" else "seeded subset; all in the thorough tier", len(units)))
     run.samples.append({"engine": "mir-smt", "kernel": "convert::convert_f64",
@@ -535,6 +592,14 @@ def replay(run, path):
             print("VIOLATION property=C09 replay=%s" % path)
         return 1 if p else 0
     us = {u["symbol"]: dict(u, oracle=oracle_for(u, oracle)) for u in table["units"]}
+    if obj.get("replay") == "convert_fraction":
+        r = nat.call("convert_fraction", "0", "1", "2", "0.01", "cup", "ml")
+        want = (Fraction(1, 2) + Fraction(1, 100)) * Fraction(236588236, 1000000)
+        bad = "error" in r or abs(Fraction(r.get("n", 0)) - want) > want / 10 ** 6
+        print("replay:", r, "expected", float(want))
+        if bad:
+            print("VIOLATION property=C09 replay=%s" % path)
+        return 1 if bad else 0
     if obj.get("replay") == "cross":
         r = nat.call("convert_api", "N", "1.5", obj["a"], obj["b"])
         print("replay:", r)
